@@ -237,9 +237,26 @@ func (cl *cluster) apply(ev string) {
 		cl.down[atoi(f[1])] = true
 	case "Up":
 		cl.down[atoi(f[1])] = false
-	case "Start", "StartWrong":
+	case "Start", "StartWrong", "StartAllAsc", "StartAllDesc":
 		i := atoi(f[1])
-		err := cl.guard(ev, func() error { return c.Start(addr(i)) })
+		addrs := []string{addr(i)}
+		if strings.HasPrefix(f[0], "StartAll") {
+			// the volume "start" action with a replica list: the signalled replica first, then every other node that is
+			// up, in ascending or descending node order (Controller.Start takes companions that never registered, too)
+			var others []int
+			for k := range cl.nodes {
+				if k != i && !cl.down[k] {
+					others = append(others, k)
+				}
+			}
+			if f[0] == "StartAllDesc" {
+				sort.Sort(sort.Reverse(sort.IntSlice(others)))
+			}
+			for _, k := range others {
+				addrs = append(addrs, addr(k))
+			}
+		}
+		err := cl.guard(ev, func() error { return c.Start(addrs...) })
 		cl.observe("%s -> %v", ev, err != nil)
 		cl.terr(ev, err)
 		cl.settle()
